@@ -104,6 +104,8 @@ def grid_specs():
         "cid_lengths": {"dcid_len": 20, "c_scid_len": 4, "s_scid_len": 17},
         "suite_not_first": {"offered": "x"},
         "retry_long_token_0rtt": {"retry": True, "token_len": 80, "early": 2},
+        "retry_after_pn_gap": {"retry": True, "hs_gaps": [300, 0, 0, 70000, 0]},
+        "handshake_pn_gaps": {"hs_gaps": [5, 300, 0, 1 << 20], "hs_coalesce": False},
         "new_token_long_0rtt": {"token_len": 64, "early": 1},
     }
     i = 0
